@@ -70,7 +70,18 @@ func (codec *wsCodec) ReadMessage() (*jsonrpc2.Message, error) {
 	if err != nil {
 		return nil, err
 	}
-	return codec.inner.ReadMessage()
+	msg, err := codec.inner.ReadMessage()
+	if err != nil {
+		return msg, err
+	}
+	// Skip whatever is left of this websocket message: the decoder stops at
+	// the end of the JSON value, but a message larger than the peer's write
+	// buffer is followed by an empty final fragment that would otherwise be
+	// mistaken for the next message.
+	if err := codec.r.Discard(); err != nil {
+		return msg, err
+	}
+	return msg, nil
 }
 
 func (codec *wsCodec) WriteMessage(msg *jsonrpc2.Message) error {
